@@ -199,7 +199,7 @@ CHECKS["C07"] = {
             "identities, references and version counters) and the six ways a shipped middleware treats its input (per-block "
             "deepcopy, in place, library deepcopy, sorter, default write stack); MC_Middleware checks InvInputFrozen, "
             "InvNoAlias and StepNoAlias for all stacks of up to 3 applications and shows with a second configuration that "
-            "the deviation ShallowBlockCopy violates them. On the code, all 35 (middleware class, option set) pairs in copy "
+            "the deviation ShallowBlockCopy violates them. On the code, all 43 (middleware class, option set) pairs in copy "
             "mode are applied alone, in all/sampled pairs and sampled triples to 6 libraries parsed at different value "
             "type-states (with failed, duplicate, duplicate-field and middleware-error blocks), plus write_string twice with "
             "three formats; each application is an event (shared mutable object ids, input projection before/after, exception, "
